@@ -53,9 +53,7 @@ fn delta() -> Q {
 
 /// rows relaxed by a margin: if still infeasible the system is "infeasible by a margin"
 fn relaxed(rows: &[Row]) -> Vec<Row> {
-    rows.iter()
-        .map(|r| Row::le(r.a.clone(), &r.b + &(&delta() * &(&Q::one() + &(&r.b.abs() + &norm1(&r.a))))))
-        .collect()
+    lp::relaxed(rows, &delta())
 }
 
 /// returned witness must be in the set up to the stated slack
